@@ -173,6 +173,9 @@ def check(repo):
 
     r1.require(n_cont >= 14, schemes[0].method("_Enc"), "containers floor", "only %d containers analysed (expected >= 14)" % n_cont)
     _check_partition_pads(repo, r4)
+    for s_ in schemes:
+        if s_.name == "DP17.Pi":
+            check_dp17_bucket_bookkeeping(repo, r2, s_, s_.method("_Enc"), fn_terms(repo, s_.method("_Enc")))
     return rules
 
 
@@ -304,6 +307,38 @@ def _check_blocks_padded(repo, r4, s, enc, ft, L):
                             "%s: a block is encrypted with a length that depends on the list (%s): blocks are no longer zero-padded to the fixed block size" % (s.name, p.canon()[:140]), witness=desc)
                 else:
                     r4.ok(desc)
+
+
+def check_dp17_bucket_bookkeeping(repo, rule, s, enc, ft):
+    """Every chunk placed into a bucket is deducted from that bucket's remaining capacity in the same iteration of the chunk loop:
+    the number of dummy entries appended later is the remaining capacity, so a missed deduction over-fills the bucket and its
+    length depends on how the lists were split."""
+    from ..model import ancestors
+    places, deducts = [], []
+    for name, ms in ft.mutations().items():
+        for (mn, kind, payload, subs) in ms:
+            if kind in ("append", "extend") and len(subs) == 2:
+                places.append((name, mn, payload, subs))
+            if kind == "augitem" and len(subs) == 1:
+                tt, st = payload
+                if isinstance(st, ast.AugAssign) and isinstance(st.op, ast.Sub) and isinstance(tt, ast.Subscript):
+                    deducts.append((name, mn, st, list(subs) + [tt.slice]))
+    if not rule.require(bool(places) and bool(deducts), enc, "DP17 bucket bookkeeping", "DP17._Enc no longer deducts placed chunks from the remaining capacity of their bucket"):
+        return
+
+    def loops(node_ast):
+        return [a for a in ancestors(node_ast) if isinstance(a, (ast.For, ast.While))]
+    for (_n, _mn, call, subs) in places:
+        lp = loops(call)       # innermost first: [identifier loop,] chunk loop, keyword loop
+        ok = False
+        for (_dn, _dmn, st, dsubs) in deducts:
+            dl = loops(st)
+            same_idx = [unparse(x) for x in dsubs] == [unparse(x) for x in subs]
+            if same_idx and dl and any(dl[0] is x for x in lp[:2]) and len(dl) >= len(lp) - 1:
+                ok = True
+        rule.require(ok, enc, "DP17 deduction per chunk",
+                     "DP17._Enc places a chunk into bucket [%s] but the deduction from the bucket's remaining capacity is not made in the same iteration of the chunk loop: "
+                     "chunks that are not deducted are padded over with dummy entries, and bucket lengths then depend on the list-length distribution" % ", ".join(unparse(x) for x in subs), call)
 
 
 def _check_partition_pads(repo, r4):
